@@ -92,6 +92,44 @@ def gen(repo):
     if len(loop_skel) < 8 or not any("find(" in x for x in loop_skel):
         raise TranslateError("handleIncomingData: extraction loop has an unexpected shape: %r" % loop_skel[:4])
 
+    # the four length parsers: statement skeletons (every statement that mentions the value being converted, the accumulator,
+    # the conversion call, its overflow handling or the comparison with the cap).  The model's number parsers are written
+    # over UNBOUNDED digit strings with an explicit `>= 2^64 => reject` (parseFullUInt) resp. a limit check on every prefix
+    # value INSIDE the digit loop (sizeDigits); that is only what the code does if the conversion is std::stoull behind an
+    # all-digits test with the out_of_range exception caught / std::from_chars with the errc and end-pointer test / an
+    # accumulator that is compared with the cap before the next digit is shifted in.  Props/C15.lean pins these skeletons
+    # against the model's (`gen_number_parsers`).
+    def skel(text, ident_re, what, need):
+        out = []
+        for stmt in re.split(r"[;{}]", text):
+            st = re.sub(r"\s+", " ", stmt).strip()
+            if st and re.search(ident_re, st):
+                out.append(st)
+        for n_ in need:
+            if not any(n_ in x for x in out):
+                raise TranslateError("%s: expected `%s` in the length conversion, found %r" % (what, n_, out[:6]))
+        return out
+    mcl = re.search(r'if\s*\(\s*key\s*==\s*"content-length"\s*\)\s*\{', hid)
+    if not mcl:
+        raise TranslateError("handleIncomingData: `if (key == \"content-length\")` not found")
+    cl_block = hid[mcl.end():cxxscan.match_brace(hid, mcl.end() - 1)]
+    srv_cl = skel(cl_block, r"\b(value|parsedLength|contentLength|haveContentLength|try|catch)\b", "server Content-Length",
+                  ["find_first_not_of(\"0123456789\")", "std::stoull(value)", "catch (...)", "contentLength > SessionInfo::MAX_BODY_SIZE"])
+    pfu = cxxscan.function_body(c, "parseFullUInt")
+    cli_num = skel(pfu, r".", "parseFullUInt", ["std::from_chars(b, e, out, base)", "r.ec == std::errc() && r.ptr == e"])
+    pcl = cxxscan.function_body(c, "parseContentLength")
+    cli_cl = skel(pcl, r"\b(parseFullUInt|val|result|have)\b", "parseContentLength", ["parseFullUInt(v.data() + a, v.data() + b + 1, 10, val)", "val != result"])
+    adv = cxxscan.function_body(c, "advanceChunked")
+    cli_chunk = skel(adv, r"\bchunkSize\b", "advanceChunked", ["parseFullUInt(buf.data() + p, buf.data() + hexEnd, 16, chunkSize)", "chunkSize > effectiveCap"])
+    fce = cxxscan.function_body(s, "findChunkedRequestEnd")
+    srv_chunk = skel(fce, r"\b(chunkSize|digits)\b", "findChunkedRequestEnd", ["chunkSize = chunkSize * 16 + v", "chunkSize > SessionInfo::MAX_BODY_SIZE", "data.length() - pos < chunkSize + 2"])
+    # the limit check must sit INSIDE the digit loop, right after the shift (before the next digit can wrap the accumulator)
+    i_shift = next(i for i, x in enumerate(srv_chunk) if "chunkSize = chunkSize * 16 + v" in x)
+    if not any("chunkSize > SessionInfo::MAX_BODY_SIZE" in x for x in srv_chunk[i_shift + 1:i_shift + 3]):
+        raise TranslateError("findChunkedRequestEnd: the chunk-size limit is not checked right after the accumulator is shifted")
+    number_parsers = [("server Content-Length", srv_cl), ("client parseFullUInt", cli_num), ("client parseContentLength", cli_cl),
+                      ("client chunk size", cli_chunk), ("server chunk size", srv_chunk)]
+
     # ---------------------------------------------------------------- message parser
     mt = re.search(r"static\s+constexpr\s+std::size_t\s+MAX_REQUEST_TARGET_SIZE\s*=\s*([^;]+);", m)
     if not mt:
@@ -131,6 +169,9 @@ def gen(repo):
     t += "/-- `handleIncomingData`: the statements of the pipelining loop that mention the working buffer `dataStr` or an offset\n"
     t += "derived from it, in source order (what every offset is relative to) -/\n"
     t += "def serverExtractLoop : List String := %s\n" % _lean_str_list(loop_skel)
+    t += "/-- the length conversions of both endpoints: per parser, the statements that mention the converted value, the accumulator,\n"
+    t += "the conversion call, its overflow handling and the comparison with the cap, in source order -/\n"
+    t += "def numberParsers : List (String × List String) := [%s]\n" % ",\n  ".join('("%s", %s)' % (k, _lean_str_list(v)) for k, v in number_parsers)
     t += "/-- `HttpRequest::MAX_REQUEST_TARGET_SIZE` -/\ndef maxRequestTargetSize : Nat := %d\n" % max_target
     t += "/-- `parseMethod` table; index = `enum class HttpMethod` value -/\ndef methods : List String := %s\n" % _lean_str_list(by_value)
     t += "/-- `kTcharPunct` of `isHttpToken` -/\ndef tcharPunct : String := \"%s\"\n" % tc.group(1)
